@@ -157,7 +157,19 @@ var ppmClasses = []int{0, 5, 100, 2000, 50000, 500000}
 // parties are interleaved, which the usual order (solo passes first = warm-up) can never see.
 var c18cold = true
 
-func (c18) Exec(sc *sim.Scenario, env *sim.Env) *sim.Violation {
+func (c c18) Exec(sc *sim.Scenario, env *sim.Env) *sim.Violation {
+	before := sim.ProcessExits()
+	v := c.exec(sc, env)
+	if n := sim.ProcessExits() - before; n > 0 && (v == nil || !strings.HasPrefix(v.Oracle, "HARNESS_")) {
+		// os.Exit / log.Fatal in the library: in production this ends the process, and with it
+		// every other instance, whatever their owners do (P-exit turns it into a recorded panic)
+		return &sim.Violation{Oracle: "library_terminated_process", Step: -1, NoShrink: v != nil && v.NoShrink,
+			Msg: fmt.Sprintf("the library called os.Exit/log.Fatal %d time(s) while the parties ran: one instance's fault ends every other instance in the process", n)}
+	}
+	return v
+}
+
+func (c18) exec(sc *sim.Scenario, env *sim.Env) *sim.Violation {
 	st := env.Stats
 	nt := len(sc.Tasks)
 	if nt == 0 {
